@@ -46,7 +46,7 @@ def main():
     replies = model_batch(reqs)
     bad = 0
     for (cmd, o, s), rep in zip(reqs, replies):
-        m = canon.norm_outcome(rep.split(' ## ')[0])
+        m = canon.norm_outcome(rep.rpartition(' ## ')[0])
         i = canon.norm_outcome(canon.run(bashlex, cmd, s))
         if m != i:
             bad += 1
